@@ -66,7 +66,9 @@ func (t TypeStruct) RepresentationBehavior() datamodel.Kind {
 	}
 }
 func (t TypeEnum) RepresentationBehavior() datamodel.Kind {
-	// TODO: this should have a representation strategy switch too; sometimes that will indicate int representation behavior.
+	if _, ok := t.representation.(EnumRepresentation_Int); ok {
+		return datamodel.Kind_Int // enums with the int representation strategy
+	}
 	return datamodel.Kind_String
 }
 func (t TypeAny) RepresentationBehavior() datamodel.Kind {
